@@ -1,3 +1,57 @@
-From CRS Require Import Lib.Bytes Model.Broker.
-Theorem c04_placeholder : cin init = None.
-Proof. reflexivity. Qed.
+(** C04 — a dying shell is torn down completely, announced once, and the
+    listener re-arms.  Bookkeeping level (slots, key, notices, events, wait
+    group); that no goroutine keeps running is observed by the harness. *)
+From CRS Require Import Lib.Bytes Model.Broker Proofs.BrokerProofs Props.C01.
+Open Scope N_scope.
+
+(** Releasing one direction cancels the other; if the other's proxy was still
+    running it has ended — with its closure logged — within the same step,
+    without further traffic. *)
+Theorem c04_peer_ended : forall s x p pd, slot s (other (sd_dir (st_d x))) = Some (p, pd) ->
+  In p (cancelled (fst (release s x))) /\
+  forall px, get (upd s (set_phase x PDone)) p = Some px -> st_ph px = PAttached ->
+    In (Log (LDisc false) p) (o_log (snd (release s x))).
+Proof. exact release_ends_peer. Qed.
+
+(** Exactly one 'shell is gone' notice and disconnected event, in the step
+    that empties the last slot — and the broker is then as freshly started
+    (no key, no slot). *)
+Theorem c04_gone_exactly_once : forall s x,
+  (slot s (other (sd_dir (st_d x))) = None ->
+     o_och (snd (release s x)) = [ONote NGone (sd_addr (st_d x))] /\
+     o_ev (snd (release s x)) = evs s [EDisc] /\
+     cin (fst (release s x)) = None /\ cout (fst (release s x)) = None /\ bkey (fst (release s x)) = None) /\
+  (slot s (other (sd_dir (st_d x))) <> None ->
+     ~ In (ONote NGone (sd_addr (st_d x))) (o_och (snd (release s x))) /\ o_ev (snd (release s x)) = []).
+Proof. exact release_gone. Qed.
+
+(** The ready notice (and connected event) occurs exactly when an accepted
+    stream finds the other slot occupied. *)
+Theorem c04_ready_exactly_at_full_attachment : forall s x, accepts s x = true ->
+  (In (ONote NReady (sd_addr (st_d x))) (o_och (snd (admission s x))) <->
+   slot s (other (sd_dir (st_d x))) <> None).
+Proof. exact admission_ready. Qed.
+
+(** Re-arming: in every reachable idle state, outside shutdown, an attempt
+    with ANY non-empty key in either direction is accepted — after any number
+    of previous shells. *)
+Theorem c04_rearm : forall ops x,
+  cin (fst (run ops)) = None -> cout (fst (run ops)) = None -> nomore (fst (run ops)) = false ->
+  key_missing (sd_key (st_d x)) = false -> accepts (fst (run ops)) x = true.
+Proof. intros ops x. apply rearm. apply Inv_reachable. Qed.
+
+(** At shutdown the broker finishes only when no connect call is in progress:
+    both slots are empty. *)
+Theorem c04_shutdown_waits : forall ops,
+  do_done (fst (run ops)) = true ->
+  nomore (fst (run ops)) = true /\ cin (fst (run ops)) = None /\ cout (fst (run ops)) = None.
+Proof. intros ops. apply do_done_slots. apply Tab_reachable. Qed.
+
+Example c04_example :
+  let ops := [OAdmit 1 (mkd DIn (KUni [97]) 1); OAdmit 2 (mkd DOut (KUni [97]) 2); OData 2 [120] (Some ROther);
+              ORelease 2; ORelease 1; OAdmit 3 (mkd DOut (KUni [122]) 3)] in
+  map o_och (snd (run ops)) =
+    [[ONote NConnected 1]; [ONote NConnected 2; ONote NReady 2]; [OPlain [120]; ONote NClosed 2];
+     [ONote NClosed 1]; [ONote NGone 1]; [ONote NConnected 3]] /\
+  map o_ev (snd (run ops)) = [[]; [EConn]; []; []; [EDisc]; []].
+Proof. vm_compute. split; reflexivity. Qed.
